@@ -118,16 +118,28 @@ def run_case(case, cid):
                 matrix = case["kind"].endswith("Matrix") or case["op"] == "q2m"
                 nm = pure.Namer(case["labels"], matrix)
                 model = cls(case["terms"])
+                later = []
                 if case.get("set_mapping"):
                     # a user-chosen mapping, handed over in an insertion order that differs from the integer order
                     import random as _r
                     pr = _r.Random(case["perm_seed"])
+                    # half of the time the mapping is chosen while the model is still being built: the terms mentioning one
+                    # label arrive after set_mapping (the object must keep numbering new labels consistently)
+                    used = [l for l in case["labels"] if any(l in k for k in case["terms"])]
+                    if pr.random() < 0.5 and len(used) >= 2:
+                        last = used[-1]
+                        first = {k: v for k, v in case["terms"].items() if last not in k}
+                        if any(k for k in first):
+                            later = [(k, v) for k, v in case["terms"].items() if last in k]
+                            model = cls(first)
                     vs = list(model.variables)
                     ints = list(range(len(vs)))
                     pr.shuffle(ints)
                     pairs = list(zip(vs, ints))
                     pr.shuffle(pairs)
                     model.set_mapping(dict(pairs))
+                    for k, v in later:
+                        model[k] += v
                 snap = copy.deepcopy(model)
                 terms = pure.items_of(snap)
                 if case["op"] in ("b2s", "s2b"):
